@@ -38,4 +38,8 @@ extern void InsertPadding(unsigned NumBytes, Boolean OnlyReserve);
 
 extern void asmcode_init(void);
 
+#ifdef FLAMEWING_ASL_RELEASES_VERIF
+extern void VerifTraceChunk(char Kind, unsigned ByteLen);
+#endif
+
 #endif /* ASMCODE_H */
